@@ -1,6 +1,7 @@
 //! melstf verification harness: drives the real implementation and writes, for each
 //! operation, one op line (input for the Lean model driver) and one result line.
 mod fmt;
+mod probes;
 mod rng;
 mod smallstreams;
 mod statefmt;
@@ -102,6 +103,9 @@ fn main() {
             }
             println!("{{\"stream\":\"{}\",\"lines\":{},\"discarded\":{}}}", stream, out.lines, out.discarded);
             out.finish();
+        }
+        "probe" => {
+            probes::run(args[2].as_str());
         }
         "keygen" => {
             for _ in 0..8 {
